@@ -1,4 +1,5 @@
 import DriverLib.Chain
+import DriverLib.Revo
 /-!
   Line-protocol driver: one JSON case per line on stdin, one JSON answer per line on stdout.
   `{"id":…, "k":<handler>, "in":{…}}`  ↦  `{"id":…, "out":{…}}` or `{"id":…, "error":"…"}`.
@@ -9,6 +10,7 @@ open Lean DriverLib
 def dispatch (k : String) (i : Json) : E Json :=
   match k with
   | "chain" => handleChain i
+  | "validate" => handleValidate i
   | _ => throw s!"unknown handler {k}"
 
 def answer (line : String) : String :=
